@@ -395,10 +395,17 @@ package dragonboat
 //@ ensures uf("finalidx", uf("join2", s.dir, dir)) == result
 //@ func (s *snapshotter) getEnv [C16]
 //@ trusted pure construction
+//@ ensures result.index == index
 
+// start-up clean-up: a directory that still carries its flag file (the snapshot was published but the crash
+// came before it was recorded, or before the flag removal became durable) is declared a complete snapshot
+// -- its flag file removed -- only if it is THE snapshot recorded in the log store; every other flagged
+// directory, older or newer, is removed
 //@ func (s *snapshotter) processOrphans [C16]
 //@ noframe
 //@ nobounds
+//@ modifies server.gFlagRemoved, server.gFlagRemovedIdx
+//@ loop 1 invariant server.gFlagRemovedIdx == old(server.gFlagRemovedIdx) || (gRecordedIndex != 0 && server.gFlagRemovedIdx == gRecordedIndex)
 
 // ---------------------------------------------------------------- committing a snapshot (C16)
 // protocol order from the property: publish the directory (flag file, rename), then record the
@@ -426,8 +433,18 @@ package dragonboat
 //@ trusted reads the initialised flag
 //@ func (p *pendingProposal) propose [C18]
 //@ trusted picks a shard and registers the proposal
-//@ func (p *pendingReadIndex) read [C18]
-//@ trusted queues a ReadIndex request
+// accepting a read (C12): accepted <=> the request sits in the input queue (next free slot of the buffer in
+// write) with an empty result channel; refused (closed or full queue, zero timeout) <=> the queue is as before
+//@ func (p *pendingReadIndex) read [C18 C12]
+//@ noframe
+//@ nobounds
+//@ requires p.requests != nil && p.requests.wf()
+//@ modifies p.requests.idx, elems(p.requests.left), elems(p.requests.right)
+//@ ensures result1 != nil ==> result0 == nil && p.requests.idx == old(p.requests.idx)
+//@ ensures result1 == nil ==> result0 != nil && p.requests.idx == old(p.requests.idx) + 1 && !old(p.requests.stopped) && timeoutTick > 0
+//@ ensures result1 == nil ==> (p.requests.leftInWrite ==> p.requests.left[old(p.requests.idx)] == result0) && (!p.requests.leftInWrite ==> p.requests.right[old(p.requests.idx)] == result0)
+//@ ensures result1 == nil ==> result0.CompletedC != nil && len(result0.CompletedC) == 0 && !result0.notifyCommit
+//@ ensures result1 == nil && p.ltick + timeoutTick <= MaxUint64 ==> result0.deadline == p.ltick + timeoutTick
 //@ extern github.com/lni/dragonboat/v4/client (cs *Session) ValidForSessionOp
 //@ extern github.com/lni/dragonboat/v4/client (cs *Session) ValidForProposal
 //@ func (n *node) propose [C18]
@@ -441,6 +458,7 @@ package dragonboat
 //@ func (n *node) read [C18]
 //@ noframe
 //@ nobounds
+//@ free requires n.pendingReadIndexes.requests != nil && n.pendingReadIndexes.requests.wf()
 //@ ensures n.config.IsWitness ==> result0 == nil && result1 != nil
 
 // ---------------------------------------------------------------- ReadIndex results reach their own batch (C06)
@@ -637,3 +655,27 @@ package dragonboat
 //@ ensures result1 == nil && p.proposals.leftInWrite ==> p.proposals.left[old(p.proposals.idx)].Key == key && p.proposals.left[old(p.proposals.idx)].ClientID == session.ClientID && p.proposals.left[old(p.proposals.idx)].SeriesID == session.SeriesID && p.proposals.left[old(p.proposals.idx)].RespondedTo == session.RespondedTo
 //@ ensures result1 == nil && !p.proposals.leftInWrite ==> p.proposals.right[old(p.proposals.idx)].Key == key && p.proposals.right[old(p.proposals.idx)].ClientID == session.ClientID && p.proposals.right[old(p.proposals.idx)].SeriesID == session.SeriesID && p.proposals.right[old(p.proposals.idx)].RespondedTo == session.RespondedTo
 //@ ensures forall k uint64 :: k != key ==> (k in p.pending) == old(k in p.pending) && p.pending[k] == old(p.pending[k])
+
+// ---------------------------------------------------------------- accepting a snapshot / config-change request (C12)
+// Accepted <=> the slot was empty, the request sits in the slot with an empty result channel AND has been
+// handed to the worker queue (one more element in the channel); refused <=> slot and channel are as before.
+//@ extern github.com/lni/goutils/random (r *lockedRand) Uint64
+//@ func (p *pendingSnapshot) request [C12]
+//@ noframe
+//@ nobounds
+//@ modifies held(p.mu), p.pending, chan(p.snapshotC)
+//@ ensures result1 != nil ==> result0 == nil && p.pending == old(p.pending) && len(p.snapshotC) == old(len(p.snapshotC))
+//@ ensures result1 == nil ==> old(p.pending) == nil && result0 != nil && fresh(result0) && p.pending == result0 && len(p.snapshotC) == old(len(p.snapshotC)) + 1
+//@ ensures result1 == nil ==> result0.CompletedC != nil && len(result0.CompletedC) == 0 && cap(result0.CompletedC) == 1 && !result0.notifyCommit
+//@ ensures result1 == nil && p.ltick + timeoutTick <= MaxUint64 ==> result0.deadline == p.ltick + timeoutTick
+//@ ensures timeoutTick == 0 || old(p.pending) != nil || p.snapshotC == nil ==> result1 != nil
+//@ func (p *pendingConfigChange) request [C12]
+//@ noframe
+//@ nobounds
+//@ modifies held(p.mu), p.pending, chan(p.confChangeC)
+//@ ensures result1 != nil ==> result0 == nil && p.pending == old(p.pending) && len(p.confChangeC) == old(len(p.confChangeC))
+//@ ensures result1 == nil ==> old(p.pending) == nil && result0 != nil && fresh(result0) && p.pending == result0 && len(p.confChangeC) == old(len(p.confChangeC)) + 1
+//@ ensures result1 == nil ==> result0.CompletedC != nil && len(result0.CompletedC) == 0 && cap(result0.CompletedC) == 1 && result0.notifyCommit == p.notifyCommit
+//@ ensures result1 == nil && p.notifyCommit ==> result0.committedC != nil && len(result0.committedC) == 0 && cap(result0.committedC) == 1
+//@ ensures result1 == nil && p.ltick + timeoutTick <= MaxUint64 ==> result0.deadline == p.ltick + timeoutTick
+//@ ensures timeoutTick == 0 || old(p.pending) != nil || p.confChangeC == nil ==> result1 != nil
